@@ -24,14 +24,56 @@ def cubes(tier, has_fc):
                     pfcs = [False, True] if (has_fc and kind != 1) else [False]
                     for pfc in pfcs:
                         out.append({'N': N, 'D': D, 'I': I, 'kind': kind, 'fd': fd, 'cj': cj, 'pfc': pfc, 'skip': False})
+        # errors(): the complete listing, drained (small worlds: every call re-enters the walk)
+        if (N, D, I) == sizes[0]:
+            for kind in range(3):
+                for fd in (False, True):
+                    for cj in ([0] if kind == 1 else [0, 1]):
+                        # the complete listing costs minutes per obligation; quick relies on C02 (first error) for this clause
+                        if tier == 'quick': continue      # minutes per obligation: thorough tier only
+                        out.append({'N': 2, 'D': 1, 'I': 0, 'kind': kind, 'fd': fd, 'cj': cj, 'pfc': False, 'skip': False, 'errors': True})
         # skip_previous_dependencies: one cube per kind with symbolic skip set
         for kind in range(3):
             out.append({'N': N, 'D': D, 'I': 0, 'kind': kind, 'fd': True, 'cj': 0, 'pfc': False, 'skip': True})
     return out
 
-def cube_name(c): return f"N{c['N']}D{c['D']}I{c['I']}_k{c['kind']}_fd{int(c['fd'])}_cj{c['cj']}_pfc{int(c['pfc'])}" + ('_skip' if c['skip'] else '')
+def cube_name(c): return f"N{c['N']}D{c['D']}I{c['I']}_k{c['kind']}_fd{int(c['fd'])}_cj{c['cj']}_pfc{int(c['pfc'])}" + ('_skip' if c['skip'] else '') + ('_errors' if c.get('errors') else '')
+
+def build_errors(mir, cube):
+    """its error listing contains precisely the errors attached to what it visited"""
+    from ..ops import Errors
+    from ..oracle import redirects_regular
+    N, D, I = cube['N'], cube['D'], cube['I']
+    sym = Sym()
+    w = GraphWorld(mir, sym, N, D, I)
+    M = N * (1 + 2 * D)
+    eng = Engine(mir, usize_bits=8, unroll=N + 2, unroll_by_fn={'new': N + 3 * I * w.DI + 2, 'analyze_module_deps': 3 * D + 1, 'resolve': N + 1,
+                 mir.find('ModuleGraphErrorIterator', 'next', 'Iterator'): (N + 1) + N * D + 1})
+    w.configure(eng); eng.cfg['VEC'] = 2 * D + 2
+    opts = WalkOptions(w, sym, 'w', {'kind': cube['kind'], 'fd': cube['fd'], 'cj': cube['cj'], 'pfc': cube['pfc']})
+    rootsel = [sym.bool(f'wroot{i}') for i in range(N)]
+    er = Errors(eng, w, opts, rootsel, M + 1)
+    orc = WalkOracle(w, opts, rootsel)
+    fails = orc.failures(True)
+    es = er.es
+    def matches(e, c, d):
+        if d[0] == 'entry': return z3.And(c, e['cat'] == 0, e['spec'] == d[1])
+        rid = d[3][2]
+        return z3.And(c, z3.Or(z3.And(e['cat'] != 0, e['rid'] == rid), z3.And(e['cat'] == 0, orc.missing_at(e['spec']))))
+    known = [('in-place-missing-check-on-irregular-redirects', z3.And(opts.fd, z3.Not(redirects_regular(w))))]
+    qs = [Query('listing-ends-within-the-bound', es[M]['some'], ops=[er], world=w),
+          Query('every-listed-error-belongs-to-something-visited', Or(z3.And(e['some'], z3.Not(Or(matches(e, c, d) for c, d in fails))) for e in es), ops=[er], world=w, known=known),
+          Query('every-failure-of-what-was-visited-is-listed', Or(z3.And(c, z3.Not(Or(z3.And(e['some'], matches(e, c, d)) for e in es))) for c, d in fails), ops=[er], world=w, known=known),
+          Query('no-resolution-error-listed-twice', Or(z3.And(es[a]['some'], es[b]['some'], es[a]['cat'] != 0, es[a]['cat'] == es[b]['cat'], es[a]['rid'] == es[b]['rid']) for a in range(len(es)) for b in range(a + 1, len(es))), ops=[er], world=w, known=known),
+          Query('witness-three-errors', z3.And(es[2]['some'], Or(e['cat'] == 0 for e in es[:3]), Or(e['cat'] != 0 for e in es[:3])), expect='sat', kind='witness', ops=[er], world=w)]
+    for fname in sorted({f for f, _ in eng.exceeded}):
+        qs.insert(0, Query('unwinding:' + fname.split('>::')[-1], Or(g for f, g in eng.exceeded if f == fname), kind='unwind'))
+    qs.insert(0, Query('model-capacity', Or(g for _, g in eng.obligations), kind='obligation'))
+    qs.insert(0, Query('no-panic', Or(g for _, g in eng.panics), ops=[er], world=w))
+    return eng, w, sym.cons + w.invariant(), qs
 
 def build(mir, cube):
+    if cube.get('errors'): return build_errors(mir, cube)
     N, D, I = cube['N'], cube['D'], cube['I']
     sym = Sym()
     w = GraphWorld(mir, sym, N, D, I)
